@@ -559,6 +559,17 @@ impl RawRecords {
                 )
             })?;
         header.validate()?;
+        // A valid header whose metadata or data lies beyond the end of the file is a torn record
+        // (a write that failed or was interrupted after its first part): same outcome as a torn header
+        let record_end = self.current_offset
+            .checked_add(self.record_header_size)
+            .and_then(|x| x.checked_add(header.meta_size()))
+            .and_then(|x| x.checked_add(header.data_size()));
+        if record_end.map_or(true, |end| end > self.file.size()) {
+            let err = IOError::new(IOErrorKind::UnexpectedEof, "record body is beyond the end of blob file");
+            return Err(err.into_bincode_if_unexpected_eof())
+                .with_context(|| format!("record at {} is truncated", self.current_offset));
+        }
         self.current_offset += self.record_header_size;
         self.current_offset += header.meta_size();
         let data = if read_data {
